@@ -201,7 +201,15 @@ func (e *Engine) merge2(c *Term, a, b *State) *State {
 	if len(a.Parked) > 0 || len(b.Parked) > 0 {
 		return e.mfail("threads")
 	}
-	n := &State{Status: a.Status, Steps: maxInt(a.Steps, b.Steps), Unwind: a.Unwind, UnwindCut: a.UnwindCut, TripBound: a.TripBound, Forks: maxInt(a.Forks, b.Forks), Budget: a.Budget}
+	if len(a.Sched) != len(b.Sched) {
+		return e.mfail("schedule")
+	}
+	for i := range a.Sched {
+		if a.Sched[i] != b.Sched[i] {
+			return e.mfail("schedule")
+		}
+	}
+	n := &State{Sched: append([]int(nil), a.Sched...), CurID: a.CurID, NextTID: a.NextTID, Status: a.Status, Steps: maxInt(a.Steps, b.Steps), Unwind: a.Unwind, UnwindCut: a.UnwindCut, TripBound: a.TripBound, Forks: maxInt(a.Forks, b.Forks), Budget: a.Budget}
 	n.FreshN = map[string]int{}
 	for k, v := range a.FreshN {
 		n.FreshN[k] = v
